@@ -14,6 +14,9 @@ COMMON = r'''
 #ifndef VF_CAP
 #define VF_CAP 8          /* capacity of locally created containers (model bound) */
 #endif
+/* A spec may `#define VF_SEQ_EXACT <N>` before including gen.h: vf_seq find/erase then are exact (their loops have a
+   constant trip count N and no loop contract; an assertion checks that lengths stay <= N). Default: loop contracts
+   that only keep indices in range (element values after erase, first-occurrence of find are then unknown). */
 #ifndef VF_ICAP
 #define VF_ICAP 4         /* capacity of every boost::intrusive::list model (model bound) */
 #endif
@@ -217,17 +220,29 @@ static inline void vf_seq_%(G)s_push_front(struct vf_seq_%(G)s* s, %(T)s v) { __
 static inline %(T)s* vf_seq_%(G)s_find_in(%(T)s* b, %(T)s* e, %(T)s v)
 {
   size_t cnt = (size_t)(e - b);
+#ifdef VF_SEQ_EXACT /* exact variant with a CHECKED bound (first occurrence is found): unrolled, no loop contract */
+  size_t i = 0;
+  __CPROVER_assert(cnt <= VF_SEQ_EXACT, "vf_seq find: range within VF_SEQ_EXACT");
+/*EXACT_FIND*/
+  return b + i;
+#else
   __CPROVER_assume(cnt <= VF_CAP);
   size_t r = cnt;
   VF_FOR_CAP(if (i < cnt && r == cnt && (%(EQ)s)) r = i;)
   return b + r;
+#endif
 }
 static inline %(T)s* vf_seq_%(G)s_erase(struct vf_seq_%(G)s* s, %(T)s* it)
 {
   size_t idx = (size_t)(it - (s->d + s->h));
   __CPROVER_assert(idx < s->n, "vf_seq erase in range");
+#ifdef VF_SEQ_EXACT /* exact variant with a CHECKED bound (the tail is shifted element by element) */
+  __CPROVER_assert(s->n <= VF_SEQ_EXACT, "vf_seq erase: length within VF_SEQ_EXACT");
+/*EXACT_ERASE*/
+#else
   __CPROVER_assume(s->n <= VF_CAP);
   VF_FOR_CAP(if (idx <= i && i + 1 < s->n) s->d[s->h + i] = s->d[s->h + i + 1];)
+#endif
   s->n--;
   return it;
 }
@@ -256,6 +271,12 @@ static inline %(T)s* vf_seq_%(G)s_erase_range(struct vf_seq_%(G)s* s, %(T)s* fir
   return first;
 }
 '''
+
+EXACT_MAX = 16
+_find = "".join("#if VF_SEQ_EXACT > %d\n  if (i == %d && i < cnt && !(%%(EQ)s)) i = %d;\n#endif\n" % (j, j, j + 1) for j in range(EXACT_MAX))
+_erase = "".join("#if VF_SEQ_EXACT > %d\n  if (idx <= %d && %d < s->n) s->d[s->h + %d] = s->d[s->h + %d];\n#endif\n" % (j + 1, j, j + 1, j, j + 1) for j in range(EXACT_MAX))
+_guard = "#if VF_SEQ_EXACT > %d\n#error \"VF_SEQ_EXACT too large for the unrolled models\"\n#endif\n" % EXACT_MAX
+SEQ = SEQ.replace("/*EXACT_FIND*/\n", _guard + _find).replace("/*EXACT_ERASE*/\n", _erase)
 
 SEQ_EXTRA = r'''
 static inline struct vf_seq_%(G)s vf_seq_%(G)s_make_n(size_t n) { struct vf_seq_%(G)s s; __CPROVER_assume(n <= VF_CAP); s.d = (%(T)s*)calloc(VF_CAP, sizeof(%(T)s)); __CPROVER_assume(s.d != 0); s.h = 0; s.n = n; s.cap = VF_CAP; return s; }
